@@ -40,5 +40,6 @@ class SearchLeg(T.TravLeg):
 class C08(Prop):
     pid = "C08"
     legs = [SearchLeg()]
-    assumptions = ["attribute values compare with == as Python does; the model abstracts the comparison into a per-vertex predicate "
+    assumptions = ["dfs_recursive is exercised on graphs far below the interpreter's recursion limit",
+                   "attribute values compare with == as Python does; the model abstracts the comparison into a per-vertex predicate "
                    "computed by the harness (hasattr and ==), so `is` vs `==` and truthiness defects surface as tie disagreements"]
